@@ -34,7 +34,12 @@ def check_cache(
 
     from hypergraph.cache import compute_cache_key
 
-    cache_key = compute_cache_key(node.definition_hash, inputs)
+    # Key on what the wrapped callable actually receives (original parameter
+    # names) and on the output names the cached dict is stored under, so that
+    # nodes sharing one definition but wired differently never share entries.
+    func_inputs = node.map_inputs_to_params(inputs)
+    identity = f"{node.definition_hash}:{tuple(node.outputs)!r}"
+    cache_key = compute_cache_key(identity, func_inputs)
     if not cache_key:
         return "", None
 
